@@ -7,7 +7,7 @@
    on the implementation (getters before/after). *)
 From Coq Require Import ZArith Bool List.
 Import ListNotations.
-From Verif Require Import Model.Val Gen.Src_Z3 Model.Z3Model Proofs.Z3P Proofs.Z3P2 Proofs.Z3P3 Proofs.Z3P4 Proofs.Z3P5 Proofs.Z3P6 Proofs.Z3P7.
+From Verif Require Import Model.Val Gen.Src_Z3 Model.Z3Model Proofs.Z3P Proofs.Z3P2 Proofs.Z3P3 Proofs.Z3P4 Proofs.Z3P5 Proofs.Z3P6 Proofs.Z3P7 Proofs.Z3P9.
 Open Scope Z_scope.
 
 Theorem C10_z3_decisions : forall ins fs a, gen_z3 ins = Ok fs -> sat fs a = true ->
@@ -76,6 +76,13 @@ Theorem C10_z3_dependent_ordered : forall ins fs a, gen_z3 ins = Ok fs -> sat fs
   truth a (VPlaced (zt_id x)) = true /\ t_start a y >= t_start a x + zt_remaining x.
 Proof. exact anc_order. Qed.
 Print Assumptions C10_z3_dependent_ordered.
+
+(* whenever building the system does not raise it has a model (everything un-placed): check() cannot answer
+   unsat, and the hypothesis `sat fs a` of every theorem above is satisfiable on every such instance *)
+Theorem C10_z3_always_feasible : forall ins fs, gen_z3 ins = Ok fs -> NoDup (map zt_id (i_tasks ins)) ->
+  exists a, sat fs a = true /\ forall t, In t (i_tasks ins) -> truth a (VPlaced (zt_id t)) = false.
+Proof. exact z3_always_feasible. Qed.
+Print Assumptions C10_z3_always_feasible.
 
 (* FINDINGS FZ3-A / FZ3-B: "returns normally" is false — reachable inputs on which building the system raises *)
 Theorem C10_z3_returns_normally_refuted :
